@@ -243,3 +243,15 @@ Lemma abortc_clears :
   forall en o x, let x' := fst (exec en (abortc o) x) in
   sc (xs x') (img_small o) = 0 /\ sc (xs x') (img_large o) = 0.
 Proof. intros en o x. destruct o; vm_compute; auto. Qed.
+
+(* facts of the current source that the marker-list / marker-method invariants rest on *)
+Lemma marker_facts :
+  read_header_tables_only_aborts = true /\
+  match find_fn "tj3DecodeYUVPlanes8" api_functions with
+  | Some f => match fn_bailout f with
+              | Some b => existsb (fun h => match h with HRestoreMarkerMethods HAlways => true | _ => false end) b = true
+              | None => False
+              end
+  | None => False
+  end.
+Proof. vm_compute. auto. Qed.
